@@ -204,7 +204,7 @@ pub struct Unsup {
 
 pub fn run(ctx: &mut Ctx) {
     ctx.rule("agree: archives from the crate's writer (no encryption; incl. large_file, extra data, aligned) and contiguous archives from the independent builder with sizes in the local headers, read front-to-back from a non-seekable short-read stream with a per-entry consumption pattern from {0,1,k,all-1,all,half,random}; the sequence (name,size,method,timestamp,crc,content prefix) must equal the seekable reader's, then end-of-entries; the visitor must deliver visit_file per entry in order and then the central metadata once per entry in order. counts: crate-written archives with 65535/65536 (thorough: ..70000) entries through both streaming APIs. unsupported: an encrypted or data-descriptor entry at a generated position must yield an error, never data. Non-trivial = >=2 entries and at least one entry not fully consumed.");
-    let n = ctx.q(8000, 100000);
+    let n = ctx.q(15000, 150000);
     let maxc = ctx.q(40000, 400000);
     ctx.explore::<Case>(
         "agree",
